@@ -104,10 +104,17 @@ def _shape_fn(sh, inner=None):
     raise ValueError(k)
 
 
-def gen_shape(rng, kind, lo, hi, allow_chain=True):
+# admissibility: a dependence shape that grows with |given| is only drawn when the conditioning variable cannot be
+# astronomically large (the algebraic family has quantiles a/(1-p) ~ 1e11, then exp(mu) over/underflows)
+HEAVY = {"alg", "lognormfit"}
+BOUNDED = {"normal", "vonmises"}
+
+
+def gen_shape(rng, kind, lo, hi, allow_chain=True, cond_fam=None):
     r4 = lambda v: float(round(v, 4))
     if kind == "pos":
-        k = rng.choice(["const", "sat", "exp3", "logistic4", "power3"] + (["alpha3"] if allow_chain else []))
+        k = rng.choice(["const", "sat", "exp3", "logistic4"] + (["power3"] if cond_fam not in HEAVY else [])
+                       + (["alpha3"] if allow_chain and cond_fam not in HEAVY else []))
         a = rng.uniform(lo, lo + 0.5 * (hi - lo))
         b = rng.uniform(0.0, hi - a)
         if k == "const":
@@ -122,7 +129,7 @@ def gen_shape(rng, kind, lo, hi, allow_chain=True):
             return {"shape": k, "coef": [r4(a), r4(0.05 * b), r4(rng.uniform(0.3, 1.0))]}
         return {"shape": k, "coef": [r4(a * 1.5), r4(0.05 * b), r4(rng.uniform(0.3, 1.0))],
                 "inner": gen_shape(rng, "pos", 0.7, 3.5, allow_chain=False)}
-    k = rng.choice(["const", "linear2", "lnsqrt", "tanh"])
+    k = rng.choice(["const", "lnsqrt", "tanh"] + (["linear2", "linear2"] if cond_fam in BOUNDED else []))
     a = rng.uniform(lo, hi)
     if k == "const":
         return {"shape": k, "coef": [r4(a)]}
@@ -133,7 +140,7 @@ def gen_shape(rng, kind, lo, hi, allow_chain=True):
     return {"shape": k, "coef": [r4(a), r4(rng.uniform(-1.0, 1.0)), r4(rng.uniform(0.1, 2.0))]}
 
 
-def gen_dim(rng, i, cond):
+def gen_dim(rng, i, cond, prev=()):
     fam = rng.choice(FAM_NAMES)
     _, plist = FAMS[fam]
     par = {}
@@ -145,7 +152,7 @@ def gen_dim(rng, i, cond):
         k = rng.randrange(1, len(names) + 1)
         for nm in rng.sample(names, k):
             (_, kind, lo, hi) = [p for p in plist if p[0] == nm][0]
-            d["par"][nm] = gen_shape(rng, kind, lo, hi)
+            d["par"][nm] = gen_shape(rng, kind, lo, hi, cond_fam=prev[cond]["fam"])
     return d
 
 
@@ -163,8 +170,10 @@ def gen_spec(rng, structure=None):
         structure = rng.choice(cond_structures(n_dim))
     la = rng.uniform(math.log(1e-8), math.log(0.5))
     alpha = rng.choice([math.exp(la), math.exp(la), float("%.3g" % math.exp(la)), 0.5, 1e-8, 0.01])
-    return {"kind": rng.choice(["iform", "isorm"]), "alpha": float(alpha), "n_points": rng.randrange(3, 41),
-            "dims": [gen_dim(rng, i, c) for i, c in enumerate(structure)]}
+    dims = []
+    for i, c in enumerate(structure):
+        dims.append(gen_dim(rng, i, c, dims))
+    return {"kind": rng.choice(["iform", "isorm"]), "alpha": float(alpha), "n_points": rng.randrange(3, 41), "dims": dims}
 
 
 # ------------------------------------------------------------------ recording
